@@ -179,7 +179,8 @@ def is_standard_json(text):
 
 def exc_name(e):
     n = type(e).__name__
-    return n if n in ('ValueError', 'TypeError', 'KeyError', 'AttributeError', 'UnserializableException') else 'other:' + n
+    return n if n in ('ValueError', 'TypeError', 'KeyError', 'AttributeError', 'UnserializableException',
+                      'UnsafeserializableException') else 'other:' + n
 
 
 # ---------------------------------------------------------------- classes from declarations
@@ -223,13 +224,29 @@ def build_param(param, d):
 
 def build_class(param, case):
     """the class as first declared: parameters listed in `added` are left out, those in `replaced`
-    are declared with their old declaration"""
+    are declared with their old declaration.  With `inherit` the parameters are declared on the root of
+    a chain of `depth` classes and the class of the case is the last one."""
     ps = case['params']
     assert ps[0]['name'] == 'name' and ps[0]['type'] == 'String'
     added = set(case.get('added') or [])
     old = {n: d for n, d in case.get('replaced') or []}
-    return type(CLS_NAME, (param.Parameterized,),
-                {d['name']: build_param(param, old.get(d['name'], d)) for d in ps[1:] if d['name'] not in added})
+    body = {d['name']: build_param(param, old.get(d['name'], d)) for d in ps[1:] if d['name'] not in added}
+    depth = (case.get('inherit') or {}).get('depth', 1)
+    chain = [type(CLS_NAME if depth == 1 else 'A0', (param.Parameterized,), body)]
+    for k in range(1, depth):
+        chain.append(type(CLS_NAME if k == depth - 1 else f'A{k}', (chain[-1],), {}))
+    chain[-1]._verif_chain = chain
+    return chain[-1]
+
+
+def _set_slot(pobj, slot, v):
+    if slot == 'bounds':
+        v = None if v is None else tuple(None if x is None else dec_val(x) for x in v)
+    elif slot == 'inclusive_bounds':
+        v = tuple(v)
+    elif slot == 'item_type':
+        v = spec_of(v)
+    setattr(pobj, slot, v)
 
 
 def build_object(param, case):
@@ -240,6 +257,28 @@ def build_object(param, case):
     cls = build_class(param, case)
     names = [d['name'] for d in case['params']]
     later = set(case.get('added') or []) | {n for n, _ in case.get('replaced') or []}
+    if case.get('inherit'):
+        # class-level history: the class of the case is used (its `.param` namespace, schema and
+        # serialization), then a class `on` of its chain gets plain values assigned (`B.x = v`: B gets
+        # its own Parameter) and attributes of its Parameters edited; the class of the case, and its
+        # instances created afterwards, read the result through inheritance
+        cls.param.objects()
+        for use in (cls.param.schema, cls.param.serialize_parameters):
+            try:
+                use()
+            except Exception:
+                pass
+        target = cls._verif_chain[case['inherit']['on']]
+        for n, slot, v in case.get('edits') or []:
+            if slot == 'default':
+                setattr(target, n, dec_val(v))
+            else:
+                _set_slot(target.param[n], slot, v)
+        if case['level'] == 'class':
+            return cls, cls, names
+        vals = {n: dec_val(v) for n, v in zip(names, case['values'])}
+        vals.update({n: dec_val(v) for n, v in case.get('final') or []})
+        return cls, cls(**vals), names
     if case['level'] == 'class':
         obj = cls
     else:
@@ -275,11 +314,7 @@ def build_object(param, case):
         return cls, cls, names
     # per-instance edits of Parameter attributes, then values that may be valid only under the edit
     for n, slot, v in case.get('edits') or []:
-        if slot == 'bounds':
-            v = None if v is None else tuple(None if x is None else dec_val(x) for x in v)
-        elif slot == 'inclusive_bounds':
-            v = tuple(v)
-        setattr(obj.param[n], slot, v)
+        _set_slot(obj.param[n], slot, v)
     for n, v in case.get('final') or []:
         setattr(obj, n, dec_val(v))
     return cls, obj, names
@@ -343,7 +378,51 @@ def edited_params(case):
                     d['inclusive'] = list(v)
                 elif slot == 'allow_None':
                     d['allow_None'] = v
+                elif slot == 'item_type':
+                    d['item_type'] = v
+                elif slot == 'default':
+                    d['default'] = v
     return ps
+
+
+def _slot_edit(rng, d):
+    """one attribute edit of the Parameter declared by `d` -> (edit, edited declaration, candidate
+    values that may be valid only under the edit) or None"""
+    t = d['type']
+    d2 = dict(d)
+    kinds = ['none']
+    if t in ('Integer', 'Number', 'Range'):
+        kinds = ['bounds', 'inclusive', 'none']
+    elif t == 'List' and d.get('item_type') is not None:
+        kinds = ['item_type', 'item_type', 'none']
+    kind = rng.choice(kinds)
+    if kind == 'bounds':
+        integer = t == 'Integer'
+        lo, hi = rng.choice([(-100, 100), (None, 1000), (-7, None), (0.5, 99.5), (None, None)])
+        nb = None if (lo is None and hi is None and rng.random() < 0.5) else [None if lo is None else enc_val(lo), None if hi is None else enc_val(hi)]
+        d2['bounds'] = nb
+        c = _in_bounds_candidates(rng, nb, integer)
+        return [d['name'], 'bounds', nb], d2, ([(x, y) for x, y in zip(c, c[1:])] if t == 'Range' else c)
+    if kind == 'inclusive':
+        inc = [True, True]
+        d2['inclusive'] = inc
+        b = d.get('bounds')
+        pts = [dec_val(x) for x in (b or []) if x is not None]
+        pts = [x for x in pts if not (isinstance(x, float) and (math.isinf(x) or math.isnan(x)))]
+        if t == 'Integer':
+            pts = [int(x) for x in pts if float(x) == int(x)]
+        return [d['name'], 'inclusive_bounds', inc], d2, ([(x, x) for x in pts] if t == 'Range' else pts)
+    if kind == 'item_type':
+        # both the old and the new item type are real types (the schema's guard reads `class_`)
+        new = rng.choice([x for x in ('int', 'float', 'str', 'dict', ['int', 'str'], ['str', 'float']) if x != d['item_type']])
+        d2['item_type'] = new
+        atoms = new if isinstance(new, list) else [new]
+        n = rng.randint(max(d.get('min_len') or 0, 1), min(d.get('max_len') or 3, 3))
+        return [d['name'], 'item_type', new], d2, [[gen_atom(rng, rng.choice(atoms), 0.0, {}) for _ in range(n)]]
+    if t in ('Selector', 'ListSelector') or d.get('allow_None') is True:
+        return None
+    d2['allow_None'] = True
+    return [d['name'], 'allow_None', True], d2, [None]
 
 
 def gen_edits(rng, param, case):
@@ -354,41 +433,23 @@ def gen_edits(rng, param, case):
     for d, v0 in zip(case['params'][1:], case['values'][1:]):
         if rng.random() < 0.5:
             continue
-        t = d['type']
-        d2 = dict(d)
-        kind = rng.choice(['bounds', 'inclusive', 'none']) if t in ('Integer', 'Number', 'Range') else 'none'
-        if kind == 'bounds':
-            integer = t == 'Integer'
-            lo, hi = rng.choice([(-100, 100), (None, 1000), (-7, None), (0.5, 99.5), (None, None)])
-            nb = None if (lo is None and hi is None and rng.random() < 0.5) else [None if lo is None else enc_val(lo), None if hi is None else enc_val(hi)]
-            d2['bounds'] = nb
-            edits.append([d['name'], 'bounds', nb])
-            c = _in_bounds_candidates(rng, nb, integer)
-            cands = [(x, y) for x, y in zip(c, c[1:])] if t == 'Range' else c
-        elif kind == 'inclusive':
-            inc = [True, True]
-            d2['inclusive'] = inc
-            edits.append([d['name'], 'inclusive_bounds', inc])
-            b = d.get('bounds')
-            pts = [dec_val(x) for x in (b or []) if x is not None]
-            pts = [x for x in pts if not (isinstance(x, float) and (math.isinf(x) or math.isnan(x)))]
-            if t == 'Integer':
-                pts = [int(x) for x in pts if float(x) == int(x)]
-            cands = [(x, x) for x in pts] if t == 'Range' else pts
-        else:
-            if t in ('Selector', 'ListSelector') or d.get('allow_None') is True:
-                continue
-            d2['allow_None'] = True
-            edits.append([d['name'], 'allow_None', True])
-            cands = [None]
+        r = _slot_edit(rng, d)
+        if r is None:
+            continue
+        edit, d2, cands = r
         try:
             p = build_param(param, dict(d2, default=d.get('default')))
         except Exception:
-            edits.pop()
-            continue
+            # the edited declaration must still accept its own default when built afresh; an edit
+            # that does not is tried only through a new value
+            try:
+                p = build_param(param, dict(d2, default=enc_val(cands[0])))
+            except Exception:
+                continue
         for v in cands:
             try:
                 p._validate(v)
+                edits.append(edit)
                 final.append([d['name'], enc_val(v)])
                 break
             except Exception:
@@ -399,11 +460,87 @@ def gen_edits(rng, param, case):
             # rejects is not a valid state)
             try:
                 p._validate(dec_val(v0))
+                edits.append(edit)
             except Exception:
-                edits.pop()
+                pass
     if not edits:
         return case
     return dict(case, edits=edits, final=final)
+
+
+def gen_inherit(rng, param, case):
+    """the declaration is inherited through a chain of 1-3 classes; after the class of the case has been
+    used, one class of the chain gets attribute edits on its Parameters and plain values assigned
+    (class-level defaults valid, where possible, only under the edit)"""
+    ps = case['params'][1:]
+    if any(d['type'] in ('Selector', 'ListSelector') and d['objects'] == [] for d in ps):
+        return case
+    depth = rng.choice([1, 2, 3, 3])
+    on = rng.randrange(depth)
+    edits, final = [], []
+    vals = case['values'][1:] if case.get('values') is not None else [None] * len(ps)
+    for d, v0 in zip(ps, vals):
+        if rng.random() < 0.4:
+            continue
+        dcur = d
+        r = _slot_edit(rng, d) if rng.random() < 0.6 else None
+        cands = []
+        must_assign = False
+        if r is not None:
+            edit, d2, cands = r
+            try:
+                # the held default must stay valid under the edit unless a new one is assigned below
+                probe = build_param(param, dict(d2, default=d.get('default')))
+                edits.append(edit)
+                dcur = d2
+            except Exception:
+                ok = None
+                for v in cands:
+                    if v is None:
+                        continue
+                    try:
+                        build_param(param, dict(d2, default=enc_val(v)))
+                        ok = v
+                        break
+                    except Exception:
+                        continue
+                if ok is None:
+                    continue
+                edits.append(edit)
+                dcur = d2
+                cands = [ok]
+                must_assign = True      # the held default is not valid under the edit
+        # a plain value assigned on the class: a candidate under the edit, else the case's own value
+        pool = [v for v in cands if v is not None] + ([dec_val(v0)] if v0 is not None and v0 != {'t': 'none'} else [])
+        if pool and (must_assign or rng.random() < 0.8):
+            try:
+                p = build_param(param, dict(dcur, default=dcur.get('default') if dcur is d else enc_val(pool[0])))
+            except Exception:
+                p = None
+            if p is not None:
+                for v in pool:
+                    try:
+                        p._validate(v)
+                        edits.append([d['name'], 'default', enc_val(v)])
+                        dcur = dict(dcur, default=enc_val(v))
+                        must_assign = False
+                        break
+                    except Exception:
+                        continue
+        if must_assign:
+            edits.pop()             # no valid default under the edit: the edit is not made
+            dcur = d
+        if case['level'] == 'instance' and dcur is not d:
+            # the instance is created afterwards: its value must be valid under the edited declaration
+            try:
+                p = build_param(param, dcur)
+                try:
+                    p._validate(dec_val(v0))
+                except Exception:
+                    final.append([d['name'], dcur['default']])
+            except Exception:
+                pass
+    return dict(case, inherit={'depth': depth, 'on': on}, edits=edits, final=final)
 
 
 def name_param():
@@ -711,6 +848,27 @@ def gen_case(rng, param, types, opts, nparams=None, level=None):
     return mk_case(ps, vals, level, rng)
 
 
+SUBSET_KINDS = ('list', 'tuple', 'set', 'frozenset', 'dict')
+
+
+def make_subset(names, kind):
+    """the caller's subset argument: any container of names"""
+    if names is None:
+        return None
+    kind = kind or 'list'
+    if kind == 'list':
+        return list(names)
+    if kind == 'tuple':
+        return tuple(names)
+    if kind == 'set':
+        return set(names)
+    if kind == 'frozenset':
+        return frozenset(names)
+    if kind == 'dict':
+        return dict.fromkeys(names)
+    raise ValueError(kind)
+
+
 def mk_case(ps, vals, level='instance', rng=None, subset='auto'):
     names = [d['name'] for d in ps]
     if subset == 'auto':
@@ -719,6 +877,8 @@ def mk_case(ps, vals, level='instance', rng=None, subset='auto'):
         else:
             subset = [n for n in names if rng.random() < 0.5]
     case = {'level': level, 'cls_name': CLS_NAME, 'params': ps, 'values': vals, 'subset': subset}
+    if subset is not None and rng is not None:
+        case['subset_kind'] = rng.choice(SUBSET_KINDS)
     if level == 'class':
         # the state is the declaration's defaults; `values` is not used
         case['values'] = None
@@ -762,6 +922,9 @@ def shrink_case(case):
             c = dict(c, added=[n for n in c.get('added') or [] if n in names],
                      replaced=[r for r in c.get('replaced') or [] if r[0] in names])
         yield c
+    inh = case.get('inherit')
+    if inh and inh['depth'] > 1:
+        yield dict(case, inherit={'depth': inh['depth'] - 1, 'on': min(inh['on'], inh['depth'] - 2)})
     for k in range(len(case.get('unset') or [])):
         yield dict(case, unset=case['unset'][:k] + case['unset'][k + 1:])
     for k in range(len(case.get('added') or [])):
